@@ -469,35 +469,74 @@ func configBuiltSamplers(run *ev.Run) (evals int64) {
 		recSinks[u.Host] = s
 		return s, nil
 	})
-	for n := 0; n <= 4; n++ {
-		for m := 0; m <= 4; m++ {
-			id := fmt.Sprintf("s%d-%d", n, m)
-			var hook []zapcore.SamplingDecision
-			cfg := zap.NewProductionConfig()
-			cfg.OutputPaths = []string{"c11rec://" + id}
-			cfg.ErrorOutputPaths = []string{"c11rec://" + id + "e"}
-			cfg.Sampling = &zap.SamplingConfig{Initial: n, Thereafter: m, Hook: func(_ zapcore.Entry, d zapcore.SamplingDecision) { hook = append(hook, d) }}
-			l, err := cfg.Build(zap.WithClock(fixedClock{time.Unix(1700000000, 0)}))
-			if err != nil {
-				ev.ToolError("Config.Build: %v", err)
-			}
-			const total = 14
-			want := 0
-			var wantHook []zapcore.SamplingDecision
-			for i := 1; i <= total; i++ {
-				l.Info("same message")
-				evals++
-				admit := i <= n || (m > 0 && (i-n)%m == 0)
-				if admit {
-					want++
-					wantHook = append(wantHook, zapcore.LogSampled)
-				} else {
-					wantHook = append(wantHook, zapcore.LogDropped)
+	// every other Config switch that a sampler must not depend on: base constructor, Development,
+	// encoding, caller / stack-trace annotation, logging through a With-derived child
+	type variant struct {
+		name                       string
+		dev, base                  bool // base: true = NewDevelopmentConfig
+		console, noCaller, noStack bool
+		child                      bool
+	}
+	var variants []variant
+	for v := 0; v < 64; v++ {
+		x := variant{dev: v&1 != 0, base: v&2 != 0, console: v&4 != 0, noCaller: v&8 != 0, noStack: v&16 != 0, child: v&32 != 0}
+		x.name = fmt.Sprintf("base=%s Development=%v Encoding=%s DisableCaller=%v DisableStacktrace=%v via-With-child=%v",
+			map[bool]string{false: "NewProductionConfig", true: "NewDevelopmentConfig"}[x.base], x.dev, map[bool]string{false: "json", true: "console"}[x.console], x.noCaller, x.noStack, x.child)
+		variants = append(variants, x)
+	}
+	for vi, v := range variants {
+		for n := 0; n <= 4; n++ {
+			for m := 0; m <= 4; m++ {
+				if vi > 0 && (n > 2 || m > 3) {
+					continue // the full 5x5 grid on the plain production configuration, 3x4 on the others
 				}
-			}
-			got := recSinks[id].lines
-			if got != want || fmt.Sprint(hook) != fmt.Sprint(wantHook) {
-				run.Report(fmt.Sprintf("config:sampling:initial=%d:thereafter=%d", n, m), fmt.Sprintf("Config{Sampling: {Initial: %d, Thereafter: %d}}.Build(): %d same-key entries at one instant: %d lines reached the sink, want %d; hook decisions %v, want %v (1 = dropped, 2 = sampled)", n, m, total, got, want, hook, wantHook), map[string]any{"initial": n, "thereafter": m})
+				id := fmt.Sprintf("v%d-s%d-%d", vi, n, m)
+				var hook []zapcore.SamplingDecision
+				cfg := zap.NewProductionConfig()
+				if v.base {
+					cfg = zap.NewDevelopmentConfig()
+				}
+				cfg.Development = v.dev
+				if v.console {
+					cfg.Encoding = "console"
+				} else {
+					cfg.Encoding = "json"
+				}
+				cfg.DisableCaller, cfg.DisableStacktrace = v.noCaller, v.noStack
+				cfg.OutputPaths = []string{"c11rec://" + id}
+				cfg.ErrorOutputPaths = []string{"c11rec://" + id + "e"}
+				cfg.Sampling = &zap.SamplingConfig{Initial: n, Thereafter: m, Hook: func(_ zapcore.Entry, d zapcore.SamplingDecision) { hook = append(hook, d) }}
+				l, err := cfg.Build(zap.WithClock(fixedClock{time.Unix(1700000000, 0)}))
+				if err != nil {
+					ev.ToolError("Config.Build: %v", err)
+				}
+				if v.child {
+					l = l.With(zap.Int("k", 1)).Named("c")
+				}
+				const total = 14
+				want := 0
+				var wantHook []zapcore.SamplingDecision
+				for i := 1; i <= total; i++ {
+					l.Info("same message")
+					evals++
+					admit := i <= n || (m > 0 && (i-n)%m == 0)
+					if admit {
+						want++
+						wantHook = append(wantHook, zapcore.LogSampled)
+					} else {
+						wantHook = append(wantHook, zapcore.LogDropped)
+					}
+				}
+				got := recSinks[id].lines
+				if got != want || fmt.Sprint(hook) != fmt.Sprint(wantHook) {
+					key := fmt.Sprintf("config:sampling:initial=%d:thereafter=%d", n, m)
+					if vi > 0 {
+						key = "config:sampling:with-other-switches"
+					}
+					run.Report(key, fmt.Sprintf("Config{Sampling: {Initial: %d, Thereafter: %d}, %s}.Build(): %d same-key entries at one instant: %d lines reached the sink, want %d; hook decisions %v, want %v (1 = dropped, 2 = sampled)", n, m, v.name, total, got, want, hook, wantHook), map[string]any{"initial": n, "thereafter": m, "variant": v.name})
+				}
+				delete(recSinks, id)
+				delete(recSinks, id+"e")
 			}
 		}
 	}
@@ -600,6 +639,7 @@ func main() {
 	run.Assume = []string{
 		"messages are bucketed by fnv32a mod 4096 per level (the 'fixed hash' of the statement); collider of \"a\" found by search: " + collider + "; non-ASCII message " + strconv.Quote(nonASCII) + " and its collider " + strconv.Quote(nonASCIICollider),
 		"timestamps are int64 nanoseconds well inside the representable range",
+		"samplers built by zap.Config: SamplingConfig{Initial, Thereafter} in 0..4 x 0..4 on the production configuration and 0..2 x 0..3 on each of the 63 other combinations of {NewProductionConfig, NewDevelopmentConfig} x Development x Encoding json/console x DisableCaller x DisableStacktrace x logging through a With+Named child; 14 same-key entries at one pinned instant; lines in the sink and hook decisions against the reference",
 		"concurrent part: the sampler's atomic operations are the scheduling points; all interleavings without a preemption bound for <=4 entries, preemption bound 4 above",
 	}
 	run.Finish(map[string]any{
